@@ -211,6 +211,7 @@ def merge_ok(k1, k2, s1, s2, b):
 def small_doc(k, sel, b, tag):
     """a document with one declaration in each of the lists selected by the bits of k"""
     d = empty_doc()
+    d["metaData"]["version"] = "3.17.0" if tag in ("A", "G") else "0.1.0-" + tag  # merged files may carry different versions
     t = mk_type(sel, b)
     if k & 1:
         d["structures"].append({"name": "S" + tag, "properties": [{"name": "p", "type": t}]})
